@@ -51,7 +51,7 @@ theorem threadGo_oks (store : σ) (now : Int) (results : List (Res σ ε)) (c : 
       subst heq
       exact ⟨t, rfl, by simp [threadGo, callStep], by simp [threadGo, callStep, Thread.oks, List.countP_cons, Res.isOk]⟩
     · left
-      simp [threadGo, callStep, heq, Thread.oks, Res.isOk]
+      by_cases hr : c.retry = true <;> simp [threadGo, callStep, heq, hr, Thread.oks, Res.isOk]
 
 theorem threadStep_oks (store : σ) (now : Int) (th : Thread σ ε) :
     ((threadStep store now th).1 = store ∧ (threadStep store now th).2.oks = th.oks) ∨
